@@ -126,6 +126,10 @@ def handle (s : Option Frame) (j : Json) : Option Frame × Json :=
       match op, args with
       | Json.str "dump", [] => (s, ok (dump f))
       | Json.str "reopen", [] => (s, ok Json.null)
+      -- another live DataFrame object of the same frame: objects carry no state (`C16_handles_stateless`)
+      | Json.str "handle", [k] => match jInt? k with
+        | some _ => (s, ok Json.null)
+        | none => (s, bad "C16: handle")
       | Json.str "append_rows", [d] =>
         match rows? d with
         | some d => if rowsOutside false f.types d then outside else wrote (step f (.appendRows d))
